@@ -326,7 +326,12 @@ func (ex *Exec) scanCall(c *ssa.CallCommon, ms *modSet, isGo bool) {
 	// interface method or function value: counters only (frame assumption F1),
 	// plus effects of context-related externals
 	ms.cnt[name] = true
-	ms.cnt["fnfield:*"] = true
+	if !c.IsInvoke() {
+		ms.cnt["fnfield:*"] = true
+		for _, w := range externalWrites["fnfield:*"] {
+			ms.arr[w] = true
+		}
+	}
 	for _, w := range externalWrites[name] {
 		ms.arr[w] = true
 	}
